@@ -144,6 +144,7 @@ type End struct {
 	discard       bool
 	readErr       error        // error returned by a failed Read (default ErrRead)
 	failWriteSet  map[int]bool // one-shot failing write indices
+	discardSet    map[int]bool // one-shot indices of writes that succeed without delivering
 	lateFailSet   map[int]bool // one-shot indices of writes that are delivered and then reported failed
 	lateFailHold  func()       // if set, runs after such a write was delivered and before its failure is reported
 	writeErr      error        // error returned by a failed Write (default ErrWrite)
@@ -259,6 +260,19 @@ func (e *End) Discard() {
 	e.mu.Unlock()
 }
 
+// DiscardWritesAt makes the writes with the given indices (one-shot) succeed without delivering:
+// an envelope lost on the way although the transport reported nothing.
+func (e *End) DiscardWritesAt(idx ...int) {
+	e.mu.Lock()
+	if e.discardSet == nil {
+		e.discardSet = map[int]bool{}
+	}
+	for _, i := range idx {
+		e.discardSet[i] = true
+	}
+	e.mu.Unlock()
+}
+
 // SetOnRead installs the OnRead callback (safe while a reader is active).
 func (e *End) SetOnRead(f func(n int)) {
 	e.mu.Lock()
@@ -370,6 +384,10 @@ func (e *End) Write(ctx context.Context, rpc *Rpc) error {
 		delete(e.failWriteSet, idx)
 	}
 	discard := e.discard
+	if e.discardSet[idx] {
+		discard = true
+		delete(e.discardSet, idx)
+	}
 	lateFail := e.lateFailSet[idx]
 	if lateFail {
 		delete(e.lateFailSet, idx)
